@@ -290,3 +290,10 @@ CHECKS.update({
                       "Thread-safe and no-lock allocator, chunk sizes 8-100, slabs of 1-6 chunks plus odd remainders, counting allocFunc/deallocFunc; 1-4 threads (1 for the no-lock variant) with alloc/dealloc lists, optional clear() followed by 0-12 allocations. Every chunk inside a slab obtained from allocFunc at a chunk-multiple offset, never handed out while its canary is live, canaries never overwritten; after clear() no allocFunc call until the existing slabs' capacity is used up; deallocFunc called exactly once per slab by the destructor.",
                       [e1("conc", "pool")], "§4 C42", technique="PBT over alloc/dealloc/clear histories under generated dsched schedules; oracle = slab ledger + chunk canaries + allocFunc call counting", note=CONC_NOTE),
 })
+
+CHECKS.update({
+    "C26": pool_check("TimedTask run count, cancellation and teardown",
+                      "A private TimedTaskScheduler under the virtual clock (hook: getTime() through std::chrono); executors ImmediateInvoker and ThreadPool(1-2); periods 0 / 20 us / 0.3 ms / 2 ms, timesToRun 1-5 and unbounded, steady and normal, first run in the past / now / future, a run that returns false at a generated index, and a controller that lets the task finish, cancels, destroys or detaches+destroys it at a generated virtual instant. Invocations <= timesToRun; nothing before the first scheduled time (10 us firing margin); after a false return / after cancel() returned at most the invocations already past their check (<= number of executors, 0 further for ImmediateInvoker) may begin; after a non-detached destructor returned no invocation is in progress and none ever starts; the function object is never invoked after destruction and every copy of it is destroyed in the end. Crashes (terminate, SIGSEGV with heap poisoning) are violations.",
+                      [e1("timed", "timed")], "§4 C26",
+                      technique="PBT over (executor, period, count, first-run time, false-return index, controller action and instant) under generated dsched schedules and the virtual clock; oracle = invocation log with virtual timestamps + function-object lifetime counters + crash detection with poisoned heap"),
+})
